@@ -484,6 +484,12 @@ def run(chk):
         reuse_fill_grid(chk)
         replay_gradient_model(chk)
         shared_gradient_documents(chk, 16 if quick else 400)
+        from . import gradcache_check
+
+        gradcache_check.run(chk, lambda c, font, cfg, srcs, glyphs, ctx, replay: (
+            structural_checks(c, font, ctx, replay),
+            check_pictures(c, font, cfg, srcs, glyphs, 0.1, ctx, replay, deltas=CC.layer_deltas(glyphs, cfg, 0.1))),
+            24 if quick else 400)
     problems, unions = ds_trace.validate(chk, rec.traces)
     if unions == 0:
         raise MachineryError("no recorded grouping contains a union (vacuous)")
